@@ -13,7 +13,7 @@
 
 enum Kind { ADD_EDGE, ADD_MULTI, REMOVE_EDGE, FIND_EDGE, UPD_NODE, UPD_EDGE, SORT_EDGES, REMOVE_NODE, ADD_NODE, NKIND };
 static const char* kind_names[] = {"addEdge", "addMultiEdge", "removeEdge", "findEdge", "getData-update", "getEdgeData-update", "sortEdgesByDst", "removeNode", "addNode"};
-struct Mut { int kind, a, b, v; int observed; uint64_t seq; int commits; int yields; };
+struct Mut { int kind, a, b, v; int observed; uint64_t seq; int commits; int yields; int nolock; };
 static std::vector<Mut> muts;
 static uint64_t commit_counter;   // exact commit order (vsim_step() only advances at decision points)
 static std::vector<galois::runtime::Lockable> hlocks;   // harness locks for the no-lockable flavour
@@ -112,11 +112,35 @@ static void scenario(const char* flavour) {
   int nm = (int)wl_range(1, tier() ? 150 : 50);
   muts.clear(); int next_spare = 0; std::set<int> removed;
   int hot = (int)wl_range(2, n);
-  for (int i = 0; i < nm; i++) {
+  // swarm: a third of the runs race lookups against node/edge removal on a small dense graph
+  bool lookup_vs_removal = wl_chance(33);
+  static const int LVR[] = {FIND_EDGE, FIND_EDGE, FIND_EDGE, FIND_EDGE, REMOVE_NODE, REMOVE_NODE, ADD_EDGE, ADD_MULTI, REMOVE_EDGE, UPD_EDGE};
+  if (lookup_vs_removal) {
+    // clusters "lookups of x->b around removeNode(b)" placed next to each other in the initial range, so that they are in
+    // flight together; every node is removed at most once (re-adding a removed node resurrects other nodes' entries)
+    n = (int)wl_range(5, tier() ? 24 : 14); hot = n; init.clear();
+    for (int i = 0; i < 4 * n; i++) init.push_back({(int)wl_range(0, n - 1), (int)wl_range(0, n - 1), (int)wl_range(1, 99)});
+    std::vector<int> perm(n); for (int i = 0; i < n; i++) perm[i] = i;
+    for (int i = n - 1; i > 0; i--) std::swap(perm[i], perm[wl_range(0, i)]);
+    int victims = (int)wl_range(1, n - 2);
+    auto rnd_mut = [&](int kind, int a, int b) { Mut m{}; m.kind = kind; m.a = a; m.b = b; m.v = (int)wl_range(1, 99); m.yields = wl_chance(40) ? (int)wl_range(1, 3) : 0; m.nolock = (!NOLOCK && kind == FIND_EDGE && wl_chance(75)) ? 1 : 0; muts.push_back(m); };
+    for (int v = 0; v < victims; v++) {
+      int b = perm[v];
+      std::vector<int> srcs; for (auto& e : init) if (e[1] == b && e[0] != b) srcs.push_back(e[0]);
+      auto src = [&]() { return (!srcs.empty() && wl_chance(80)) ? srcs[wl_range(0, (long)srcs.size() - 1)] : (int)wl_range(0, n - 1); };
+      for (int k = (int)wl_range(1, 3); k > 0; k--) rnd_mut(FIND_EDGE, src(), b);
+      if (wl_chance(30)) rnd_mut(LVR[wl_range(6, 9)], (int)wl_range(0, n - 1), (int)wl_range(0, n - 1));
+      rnd_mut(REMOVE_NODE, b, (int)wl_range(0, n - 1));
+      for (int k = (int)wl_range(0, 2); k > 0; k--) rnd_mut(FIND_EDGE, src(), b);
+    }
+    nm = (int)muts.size();
+  }
+  for (int i = 0; i < nm && !lookup_vs_removal; i++) {
     Mut m{}; m.kind = (int)wl_range(0, NKIND - 1);
     m.a = (int)wl_range(0, wl_chance(50) ? hot - 1 : n - 1); m.b = (int)wl_range(0, wl_chance(50) ? hot - 1 : n - 1); m.v = (int)wl_range(1, 99); m.yields = wl_chance(40) ? (int)wl_range(1, 3) : 0;
     if (m.kind == REMOVE_NODE && (wl_chance(60) || removed.size() + 2 >= (size_t)n)) m.kind = UPD_NODE;
     if (m.kind == REMOVE_NODE) removed.insert(m.a);
+    m.nolock = (!NOLOCK && m.kind == FIND_EDGE && wl_chance(60)) ? 1 : 0;
     if (m.kind == ADD_NODE) { if (next_spare < spare) { m.a = n + next_spare++; m.b = m.a; } else m.kind = ADD_EDGE; }   // a node is added at most once, removed nodes are never re-added
     muts.push_back(m);
   }
@@ -130,6 +154,16 @@ static void scenario(const char* flavour) {
   std::vector<int> idxs(nm); for (int i = 0; i < nm; i++) idxs[i] = i;
   galois::for_each(galois::iterate(idxs), [&](int i, auto& ctx) {
     Mut& m = muts[i];
+    if (m.nolock) {
+      // read-only lookup that relies on the library's own acquisition protocol (no harness pre-locking): it may abort inside
+      // the call; it serialises after everything whose effects it saw, so its commit position is taken when it returns
+      for (int y = 0; y < m.yields; y++) vsim_yield();
+      int r = conc.apply(m);
+      if (obs_add(&m.commits, 1) != 0) vsim_fail("c01.duplicate", "mutation %d committed twice", i);
+      m.seq = obs_add(&commit_counter, (uint64_t)1);
+      m.observed = r;
+      return;
+    }
     conc.lock_node(m.a);
     for (int y = 0; y < m.yields; y++) vsim_yield();
     conc.lock_node(m.b);
